@@ -111,6 +111,20 @@ def gen(rng, tier):
         c = mk("infer", "nd", shape, rng.choice([a, a - n]), rng.choice([b, b - n]))
         c["pre"] = rng.choice({2: ["conv1d", "scale"], 3: ["conv2d", "sumpool", "avgpool", "conv2d", "sumpool"], 4: ["scale"]}[n])
         cases.append(c)
+    # a Flatten directly behind ANOTHER (typed) Flatten with the same dims: flattening twice is not the identity when the dims are
+    # negative ([2,3,4] -(-2,-1)-> [2,12] -(-2,-1)-> [24]); the second one is typed by inference from what the first declares
+    for _ in range(24 if tier == "quick" else 240):
+        n0 = rng.choice([3, 3, 4])
+        x = [rng.choice([2, 3, 5]) for _ in range(n0)]
+        sd = rng.choice([-2, -2, -3, 0, 1]) if n0 > 3 else rng.choice([-2, -2, 0, 1])
+        ed = -1
+        mid = expected(x, sd, ed)
+        if mid is None or expected(mid, sd, ed) is None:
+            continue
+        c = mk("infer", "nd", mid, sd, ed)
+        c["pre"] = "flatten"
+        c["preshape"] = x
+        cases.append(c)
     # constructor called with an output_type already filled in (a node derived from another Flatten, e.g. by
     # dataclasses.replace(node, start_dim=...), carries the old output type along): it must be recomputed
     for _ in range(30 if tier == "quick" else 300):
@@ -136,7 +150,11 @@ def recipe_for(c):
     nodes = {"in": {"k": "Input", "args": {"input_type": shape_form(c["shape"], c["form"] if c["form"].startswith("nd") else "nd")}}}
     edges = [("in", "fl"), ("fl", "out")]
     pre = c.get("pre")
-    if pre:
+    if pre == "flatten":
+        nodes["in"] = {"k": "Input", "args": {"input_type": np.array(c["preshape"], dtype=np.int64)}}
+        nodes["pre"] = {"k": "Flatten", "args": {"input_type": np.array(c["preshape"], dtype=np.int64), "start_dim": c["s"], "end_dim": c["e"]}}
+        edges = [("in", "pre"), ("pre", "fl"), ("fl", "out")]
+    elif pre:
         ch = c["shape"][0]
         one = np.array([1, 1]); zero = np.array([0, 0])
         nodes["pre"] = {
@@ -171,7 +189,7 @@ def run(c):
     a = s + n if s < 0 else s
     b = e + n if e < 0 else e
     nontriv = exp is not None and n >= 2 and (b > a or s < 0 or e < 0)
-    sig = (c["kind"], c["form"], tuple(shape), s, e, c.get("pre"), c.get("stale"), c.get("preset"), c.get("loop"))
+    sig = (c["kind"], c["form"], tuple(shape), s, e, c.get("pre"), c.get("stale"), c.get("preset"), c.get("loop"), tuple(c.get("preshape", ())))
     fail = None
     if c["kind"] == "util":
         try:
